@@ -18,6 +18,7 @@ import mc.env as env  # noqa: F401
 import copy
 import json
 import time
+from typing import Optional
 
 from mc import parallel
 from mc import schema_grammar as G
@@ -264,6 +265,11 @@ def _gen_class(item):
     if item.get("mode") == "dflt":
         nominal = G.corpus(t, e)[0]
         defaults = {e.n.f: G.materialize(nominal, e)}
+    if item.get("mode") == "mand":
+        # parent declares Optional[T]; the child makes the field mandatory with the decorator
+        P = G.make_class(e, {e.n.f: Optional[G.hint(t, e)]}, consts=item.get("consts", "none"), prefix="GP")
+        S = G.make_mandatory(e.n.f)(G.make_class(e, {}, base=P))
+        return S, [("Optional", t)]
     S = G.make_class(e, fields, consts=item.get("consts", "none"), defaults=defaults)
     return S, ts
 
@@ -293,6 +299,18 @@ def _case_gen(S, ts, item, vals, decl):
         return ("rejected", type(ex).__name__), [], False, None, None
     fails, nan, ser = judge(S, o, decl)
     return ("valid", None), fails, nan, ser, o
+
+
+def _by_part(fails):
+    """one failure per oracle part: the first failing form (order bytes, json, yaml, obj), the others listed in the text"""
+    out, seen = [], {}
+    for part, form, what in fails:
+        if part in seen:
+            seen[part].append(form)
+        else:
+            seen[part] = [form]
+            out.append([part, form, what])
+    return [(p, f, w + (f" (also for: {', '.join(seen[p][1:])})" if len(seen[p]) > 1 else "")) for p, f, w in out]
 
 
 def _viol_gen(item, vals, part, form, what, cause, seed):
@@ -347,7 +365,7 @@ def run_gen(item):
         if fails:
             res["nviol"] += len(fails)
             shift = None
-            for part, form, what in fails:
+            for part, form, what in _by_part(fails):
                 cause = "other"
                 if part in ("roundtrip", "second-roundtrip", "parse") and any("Union" in G.texpr_str(t) for t in ts):
                     if shift is None:
@@ -390,27 +408,48 @@ def _skip_none_default(S, key, v):
     return False
 
 
+def _pair_corpus(c, k):
+    """pair deviations use the first k corpus values of a field plus explicit None and omission (k=None: everything)"""
+    if k is None:
+        return list(range(len(c)))
+    idx = list(range(min(k, len(c))))
+    for extra in (None, G.OMIT):
+        for n, v in enumerate(c):
+            if (v is None and extra is None) or (extra is G.OMIT and G.is_omit(v)):
+                if n not in idx:
+                    idx.append(n)
+    return idx
+
+
 def run_installed(item):
-    """item = (schema name, i, j or None, reduced?): all deviations of field i (and field j) from the minimal instance."""
-    name, i, j, reduced = item
+    """item = (schema name, i, j|None, k, bad_i, bad_j): all deviations of field i (and j) from the minimal instance.
+
+    Pairs: value indices in bad_i / bad_j failed the oracle on their own (bound 1) and are not combined again."""
+    name, i, j, k, bad_i, bad_j = item
     ver, S = _schemas()[name]
     specs = _fspecs(name)
-    res = {"evals": 0, "valid": 0, "rejected": 0, "rej_kinds": {}, "nan_skipped": 0, "distinct": 0, "viol": [], "nviol": 0, "sample": None}
+    res = {"evals": 0, "valid": 0, "rejected": 0, "rej_kinds": {}, "nan_skipped": 0, "distinct": 0, "viol": [], "nviol": 0, "sample": None,
+           "failed_idx": [], "subsumed": 0}  # fmt: skip
     if i is None:
-        devs = [[]]
+        devs = [(None, [])]
     elif j is None:
         k1, c1 = specs[i]
-        devs = [[[k1, v]] for v in c1 if not _skip_none_default(S, k1, v)]
+        devs = [(n, [[k1, v]]) for n, v in enumerate(c1) if not _skip_none_default(S, k1, v)]
     else:
         k1, c1 = specs[i]
         k2, c2 = specs[j]
-        if reduced:
-            c1 = c1[:2] + [G.OMIT]
-            c2 = c2[:2] + [G.OMIT]
-        devs = [[[k1, v], [k2, w]] for v in c1 for w in c2 if not _skip_none_default(S, k1, v) and not _skip_none_default(S, k2, w)]
+        devs = []
+        for n in _pair_corpus(c1, k):
+            for m in _pair_corpus(c2, k):
+                if _skip_none_default(S, k1, c1[n]) or _skip_none_default(S, k2, c2[m]):
+                    continue
+                if n in bad_i or m in bad_j:
+                    res["subsumed"] += 1
+                    continue
+                devs.append((None, [[k1, c1[n]], [k2, c2[m]]]))
     seen = set()
     classes_reported = set()
-    for dev in devs:
+    for idx, dev in devs:
         res["evals"] += 1
         (status, kind), fails, nan, ser = _inst_case(name, dev)
         if status == "rejected":
@@ -426,8 +465,10 @@ def run_installed(item):
             res["distinct"] += 1
             if res["sample"] is None and len(dev) and len(b) < 400:
                 res["sample"] = {"schema": name, "deviation": dev, "bytes": b.decode("utf-8", "replace").strip()}
-        for part, form, what in fails:
-            res["nviol"] += 1
+        if fails and idx is not None:
+            res["failed_idx"].append(idx)
+        res["nviol"] += len(fails)
+        for part, form, what in _by_part(fails):
             key = (part, form)
             if key in classes_reported:
                 continue
